@@ -37,6 +37,8 @@ def jobs(tier):
                     js.append(("job_conform", dict(_name="abstract q=%s %s restored=%d lens=%s" % (qn, cls, restored, lens),
                                                    qn=qn, cls=cls, restored=restored, lens=lens)))
     js.append(("job_constants", dict(_name="published constants and vectors (ground)")))
+    for g in ("toy11", "I1024", "Ed25519"):
+        js.append(("job_matrix", dict(_name="session matrix on the plain package: %s (ground)" % g, gname=g)))
     from checks import realtier
     js += realtier.jobs_for("C03", tier)
     return js
@@ -131,6 +133,15 @@ def _cex(w, m, cls, restored):
                 x=model_int(m, w["a"].xy_scalar, 5) if hasattr(w["a"], "xy_scalar") else 5)
 
 
+def job_matrix(J, gname):
+    """ground: many sessions in one process (custom seeds, roles, passwords, id splits, restore), identical entropy, each
+    compared with the by-the-book reference -- state leaking between sessions shows as a disagreement"""
+    from checks import matrix
+    r = matrix.session_matrix((gname,))
+    J.ground("every session of the matrix on %s (run in one process, both orders) matches the published definition" % gname,
+             r is None, r, oracle="conform", args=dict(cls="A", restored=0, pw=b"pw", idA=b"a", idB=b"b", x=3))
+
+
 def job_constants(J):
     G, E = loader.MODS["groups"], loader.MODS["ed25519_basic"]
     for nm in ("I1024", "I2048", "I3072"):
@@ -196,6 +207,10 @@ def oracle_conform(cls, restored, pw, idA, idB, x):
                 if o[0] != "key" or o[1] != wantk:
                     return (True, "finish() key differs from the published definition on %s class %s pw=%r idA=%r idB=%r x=%d (%s)" % (
                         nm, cls, p_, ia, ib, xx, o[1] if o[0] == "exc" else o[1].hex()[:16]))
+    from checks import matrix
+    r = matrix.session_matrix()
+    if r:
+        return (True, r)
     return (False, "conforms")
 
 
